@@ -180,7 +180,9 @@ Module Msg.
   Definition key_type := s2b " key type:".
   Definition value_type := s2b " value type:".
   Definition nil_ := s2b "<nil>".
-  Definition nonnil := s2b "&".
+  Definition map_ := s2b "map".
+  Definition list_ := s2b "list".
+  Definition set_ := s2b "set".
   Definition required := s2b "REQUIRED".
   Definition optional := s2b "OPTIONAL".
   Definition default_ := s2b "DEFAULT".
@@ -269,6 +271,17 @@ Definition qualified_name (P : program) (sc : nat) (n : bytes) : bytes :=
     else n
   end.
 
+(** Type.String, as printed by '%v' (a nil *Type prints as <nil>) *)
+Fixpoint ty_string (t : ty) : bytes :=
+  match t with
+  | TNil => Msg.nil_
+  | Ty n k v =>
+    if beqb n Msg.map_ then Msg.map_ ++ 60 :: ty_string k ++ 44 :: ty_string v ++ [62]
+    else if beqb n Msg.list_ then Msg.list_ ++ 60 :: ty_string v ++ [62]
+    else if beqb n Msg.set_ then Msg.set_ ++ 60 :: ty_string v ++ [62]
+    else n
+  end.
+
 Definition mismatch (warn : bool) (rule : Z) (m : bytes) : diag :=
   if warn then warning rule m else err rule m.
 
@@ -277,10 +290,8 @@ Fixpoint check_type (fuel : nat) (po pn : program) (so : nat) (ot : ty) (sn : na
          (warn : bool) (ctx : bytes) : list diag :=
   match ot, nt with
   | TNil, TNil => []
-  | TNil, Ty _ _ _ =>
-    [mismatch warn 5 (sp ctx (Msg.types_not_equal ++ Msg.nil_ ++ Msg.arrow ++ Msg.nonnil ++ Msg.quote))]
-  | Ty _ _ _, TNil =>
-    [mismatch warn 5 (sp ctx (Msg.types_not_equal ++ Msg.nonnil ++ Msg.arrow ++ Msg.nil_ ++ Msg.quote))]
+  | TNil, Ty _ _ _ | Ty _ _ _, TNil =>
+    [mismatch warn 5 (sp ctx (Msg.types_not_equal ++ ty_string ot ++ Msg.arrow ++ ty_string nt ++ Msg.quote))]
   | Ty _ _ _, Ty _ _ _ =>
     match fuel with
     | O => [abort]
